@@ -79,7 +79,7 @@ def tour_cases(tier, seed):
 
 def gen_cases(tier, seed):
     n = 70 if tier == 'quick' else 2400
-    return tour_cases(tier, seed) + [{'kind': KINDS[i % len(KINDS)], 'sub': i, 'seed': seed, 'arrays': bool(i % 4 == 3), 'length': 1 + (i * 7) % 12,
+    return pair_cases(tier, seed) + tour_cases(tier, seed) + [{'kind': KINDS[i % len(KINDS)], 'sub': i, 'seed': seed, 'arrays': bool(i % 4 == 3), 'length': 1 + (i * 7) % 12,
              'obl_on': bool((i // len(KINDS)) % 3 != 1), 'reuse_buffers': bool(i % 8 == 3), 'trunc': [4, 2, 6, 4][(i // len(KINDS)) % 4], 'lmax': [2, 2, 3][(i // len(KINDS)) % 3] if KINDS[i % len(KINDS)].startswith('layered') else 2} for i in range(n)]
 
 
@@ -168,7 +168,91 @@ def close(a, b):
     return None
 
 
+def pair_cases(tier, seed):
+    """two tidally active satellites of one host: multi-world entry points (orbit.set_states) mixed with single-world ones"""
+    return [{'kind': 'pair', 'sub': 200000 + i, 'seed': seed, 'arrays': bool(i % 3 == 2), 'length': 6} for i in range(8 if tier == 'quick' else 120)]
+
+
+def eval_pair(c):
+    from TidalPy.structures import build_world, build_from_world
+    from TidalPy.structures.orbit import PhysicsOrbit
+    from TidalPy.utilities.conversions import days2rads
+    rng = np.random.default_rng([c['seed'], 13, c['sub']])
+    n_arr = 3 if c['arrays'] else None
+    cnt = {'steps_applied': 0, 'steps_compared': 0, 'functional_api_comparisons': 0}
+    viol = []
+
+    def val(lo, hi):
+        return float(rng.uniform(lo, hi)) if n_arr is None else rng.uniform(lo, hi, n_arr)
+
+    def mk2():
+        star = build_world('55cnc')
+        base = build_world('earth_simple')
+        ws = []
+        for nm_, q_ in (('pair_a', 60.0), ('pair_b', 200.0)):
+            cfg = {'force_spin_sync': True, 'type': 'simple_tidal', 'mass': 5.972e24, 'slices': 100,
+                   'tides': {'model': 'global_approx', 'fixed_q': q_, 'use_ctl': False, 'eccentricity_truncation_lvl': 4, 'max_tidal_order_l': 2, 'obliquity_tides_on': False}}
+            ws.append(build_from_world(base, new_config=cfg, new_name=nm_))
+        return star, ws, PhysicsOrbit(star, tidal_host=star, tidal_bodies=ws)
+
+    def place(orb_, ws_, st_):
+        for w_, s_ in zip(ws_, st_):
+            orb_.set_state(w_, orbital_period=s_['P'], eccentricity=s_['e'])
+
+    def snap2(orb_, ws_):
+        out = {}
+        for j_, w_ in enumerate(ws_):
+            out.update({f'{j_}.H': w_.tidal_heating_global, f'{j_}.dUdM': w_.dUdM, f'{j_}.dUdw': w_.dUdw, f'{j_}.dUdO': w_.dUdO,
+                        f'{j_}.dadt': orb_.get_semi_major_axis_time_derivative(w_), f'{j_}.dedt': orb_.get_eccentricity_time_derivative(w_)})
+        return {k_: arr(v_) for k_, v_ in out.items()}
+
+    star, ws, orb = mk2()
+    st = [{'P': val(3., 30.), 'e': val(0.02, 0.2)}, {'P': val(40., 90.), 'e': val(0.02, 0.2)}]
+    place(orb, ws, st)
+    hist = []
+    for step in range(c['length']):
+        op = ['states_both_Pe', 'states_both_e', 'states_reversed_P', 'state_one', 'set_e_one', 'states_both_n'][int(rng.integers(6))]
+        newP, newe = [val(3., 30.), val(40., 90.)], [val(0.02, 0.2), val(0.02, 0.2)]
+        sigs = [[w_, w_.name][int(rng.integers(2))] for w_ in ws]
+        if op == 'states_both_Pe':
+            orb.set_states(sigs, eccentricities=newe, orbital_periods=newP)
+            for j_ in (0, 1): st[j_] = {'P': newP[j_], 'e': newe[j_]}
+        elif op == 'states_both_e':
+            orb.set_states(sigs, eccentricities=newe)
+            for j_ in (0, 1): st[j_]['e'] = newe[j_]
+        elif op == 'states_reversed_P':
+            orb.set_states(sigs[::-1], orbital_periods=newP[::-1])
+            for j_ in (0, 1): st[j_]['P'] = newP[j_]
+        elif op == 'states_both_n':
+            orb.set_states(sigs, orbital_frequencies=[days2rads(newP[0]), days2rads(newP[1])])
+            for j_ in (0, 1): st[j_]['P'] = newP[j_]
+        elif op == 'state_one':
+            j_ = int(rng.integers(2))
+            orb.set_state(sigs[j_], orbital_period=newP[j_], eccentricity=newe[j_])
+            st[j_] = {'P': newP[j_], 'e': newe[j_]}
+        else:
+            j_ = int(rng.integers(2))
+            orb.set_eccentricity(sigs[j_], newe[j_])
+            st[j_]['e'] = newe[j_]
+        hist.append(op)
+        cnt['steps_applied'] += 1
+        got = snap2(orb, ws)
+        s2, ws2, orb2 = mk2()
+        place(orb2, ws2, st)
+        exp = snap2(orb2, ws2)
+        cnt['steps_compared'] += 1
+        bad = close(got, exp)
+        if bad:
+            k_, x_, y_ = bad
+            viol.append({'key': f'stale-after-multi-world-{op}', 'desc': f'[two satellites{" arrays" if c["arrays"] else ""}] after history {hist} satellite quantity {k_} = {None if x_ is None else x_[:3]} but a fresh system in the same state reports {None if y_ is None else y_[:3]}',
+                         'data': {'history': hist, 'quantity': k_}})
+            break
+    return {'status': 'violated' if viol else 'held', 'nontrivial': cnt['steps_compared'] > 0 or bool(viol), 'violations': viol, 'obs': {'kind': 'pair', 'arrays': c['arrays'], 'history': hist}, 'counters': cnt}
+
+
 def eval_case(c):
+    if c['kind'] == 'pair':
+        return eval_pair(c)
     from TidalPy.utilities.conversions import days2rads
     kind = c['kind']
     rng = np.random.default_rng([c['seed'], 13, c['sub']])
